@@ -107,8 +107,10 @@ def check_C01(tier, seed, replay=None):
     cfg = F.RandCfg(depth=4, maxrules=3, safe_rep=False)
     groups += F.random_groups(seed, nrand, cfg, gi0=len(groups) + 1)
     inputs = F.all_inputs([F.A, F.B, F.UA], maxlen)
+    nbase = len(inputs)
+    recin = add_rec(groups, inputs, nrand // 4, seed, alphabet=((F.A,), (F.B,), (F.UA,)), safe_rep=False)
     options = [opt(), opt(maxexpr=3000), opt(entry="-"), opt(debug=True), opt(via="reader"), opt(via="file"), opt(entry="No_such_rule")]
-    allin = list(range(len(inputs)))
+    allin = list(range(nbase))
     run.keep_debug = True
     # terminals and input of several bytes per rune (a rune is one step whatever its length), ignore-case beyond the letters
     ARROW = 0x2192
@@ -133,6 +135,8 @@ def check_C01(tier, seed, replay=None):
             pl += [(ii, 4) for ii in allin[::2]] + [(ii, 5) for ii in allin[::7]]      # through ParseReader and ParseFile
         if g.gi % 7 == 2:
             pl += [(ii, 6) for ii in allin[:3]]                                          # an Entrypoint that does not exist
+        if "rec" in g.tags:
+            pl += [(ii, oi) for ii in recin] + ([(ii, 3) for ii in recin[::4]] if not g.maydiverge and g.gi % 2 == 0 else [])
         return pl
     div, tot = run.execute(groups, inputs, options, plan_for, flagsets, pack_size=100, noentry_oi=2, lower=F.FOLD_PAIRS)
     design_level(run, groups, inputs, options, lambda g: [1] if g.maydiverge else [0], 192 if tier == "quick" else 100000, inputs_idx=allin,
@@ -222,6 +226,7 @@ def check_C02(tier, seed, replay=None):
         inputs += [extra + x for x in inputs[1:12]] + [x + extra + x for x in inputs[1:6]]
     options = [opt(), opt(memo=True), opt(maxexpr=3000), opt(maxexpr=3000, memo=True), opt(debug=True)]
     nin = len(inputs)
+    recin = add_rec(groups, inputs, nrand // 5, seed, alphabet=(R["a"], R["b"], R["nl"], R["eacute"]), leaves=F.LEAVES_UTF8 + F.LEAVES_FULL, preds=True, state=True, errs=0.2)
     run.add_witnesses([f["id"] for f in findings.active("C02")], groups, inputs, options)
     run.keep_debug = True
 
@@ -229,6 +234,8 @@ def check_C02(tier, seed, replay=None):
         pl = [(ii, oi) for ii in range(nin) for oi in ((2,) if g.maydiverge else (0, 1))]
         if not g.maydiverge and g.gi % 3 == 1:
             pl += [(ii, 4) for ii in range(0, nin, 2)]       # Debug(true): every printed position is checked against M (T2, PosIsPure)
+        if "rec" in g.tags:
+            pl += [(ii, oi) for ii in recin for oi in ((2,) if g.maydiverge else (0, 1))]
         return pl
     div, tot = run.execute(groups, inputs, options, plan_for, flagsets, lower=[[201, 233]], cmp=dict(ctx=True))
     design_level(run, groups, inputs, options, lambda g: [0], 250 if tier == "quick" else 3000, inputs_idx=range(nin))
@@ -268,6 +275,30 @@ def add_lr(groups, inputs, n, seed, maxlen=4, pure=False):
     return list(range(first, len(inputs)))
 
 
+def add_rec(groups, inputs, n, seed, alphabet=((F.A,), (F.B,)), nlong=24, **kw):
+    """right- and mutually recursive grammars (a rule entered again after one rune was consumed), with a few longer inputs of
+    their own: nesting as deep as the input is long (rule stack, label scopes, memo rows of many frames)"""
+    cfg = F.RandCfg(**dict(dict(depth=4, maxrules=3, recursive=True), **kw))
+    new = F.random_groups(seed + 400, n, cfg, gi0=len(groups) + 1)
+    for g in new:
+        g.tags.add("rec")
+    groups += new
+    first = len(inputs)
+    rng = random.Random(seed + 401)
+    for _ in range(nlong):
+        inputs.append([b for _k in range(rng.randint(5, 9)) for b in rng.choice(alphabet)])
+    return list(range(first, len(inputs)))
+
+
+def with_rec(plan, recin, ois=lambda g: (1,) if g.maydiverge else (0,)):
+    def f(g):
+        pl = plan(g)
+        if "rec" in g.tags:
+            pl = pl + [(ii, oi) for ii in recin for oi in ois(g)]
+        return pl
+    return f
+
+
 def check_C05(tier, seed, replay=None):
     """backtracking rolls back the state store (incl. Cloner values); globalStore is never rolled back"""
     import findings
@@ -293,7 +324,8 @@ def check_C05(tier, seed, replay=None):
     run.keep_debug = True
     nin = len(inputs)
     lrin = add_lr(groups, inputs, 60 if tier == "quick" else 400, seed)     # state blocks inside left-recursive growth
-    bp = budget_plan(nin, lr_inputs=lrin)
+    recin = add_rec(groups, inputs, nrand // 5, seed, state=True, cloner=True, gstore=True, preds=True)    # state changes across many nested rule frames
+    bp = with_rec(budget_plan(nin, lr_inputs=lrin), recin)
 
     def plan5(g):
         pl = bp(g)
@@ -386,9 +418,13 @@ def check_C06(tier, seed, replay=None):
     deep_first = len(inputs)
     inputs += [[F.A] * 70, [F.B] * 45 + [F.A] + [F.B] * 45, [F.B] * 60 + [F.A], [F.B] * 30 + [F.A] + [F.B] * 29]
     deepin = list(range(deep_first, len(inputs)))
+    recin = add_rec(groups, inputs, nrand // 5, seed, alphabet=((F.A,), (F.B,), (F.UA,)), preds=True, errs=0.2)
     run.add_witnesses([f["id"] for f in findings.active("C06")], groups, inputs, options)
 
     def plan_for(g):
+        if "rec" in g.tags:
+            ois = [8 + i for i, c in enumerate(combos) if not c[0]] if g.maydiverge else list(range(8))
+            return [(ii, oi) for ii in list(range(0, nin, 2)) + recin for oi in ois]
         if "lr" in g.tags:
             return [(ii, oi) for ii in lrin for oi in range(8)]
         if "deep" in g.tags:
@@ -421,6 +457,8 @@ def check_C06(tier, seed, replay=None):
                         hz.append("F21")
                     div.append(dict(k=o["k"], vi=o["vi"], gi=gi, ii=ii, oi=oi, df="pair-" + fld, at=0, haz=hz))
                     break
+    import optproto
+    optproto.report(run, tier, seed, with_design=False)     # the option protocol (Options.tla) stepped on real parser objects
     return std_finish(run, div, tot, "pure-block grammars (E(d) with predicates, random multi-rule, double-reach shapes: one rule reached at one offset along two paths) x all inputs x the 8 combinations of Memoize/Debug/Statistics; each compared with PegRef and with the default-option run of the same parser; ExprCnt <= expressions x (len+1) under Memoize",
                       classify=classify_F2, extra=dict(option_pairs_compared=npairs))
 
@@ -451,7 +489,8 @@ def check_C10(tier, seed, replay=None):
     fold_first = len(inputs)
     inputs += F.all_inputs([F.utf8(F.RN), F.utf8(F.RNL), F.utf8(F.RN + 2), F.utf8(F.RNL + 2), [F.A], [107], [75], F.utf8(F.KELVIN), F.utf8(0xC9), F.utf8(0xE9)], 2)
     foldin = list(range(fold_first, len(inputs)))
-    bp = budget_plan(nin, lr_inputs=lrin)
+    recin = add_rec(groups, inputs, n // 2, seed, alphabet=((F.A,), (F.B,), (F.NL,)), state=True, cloner=True, preds=True, errs=0.2, throw=True)
+    bp = with_rec(budget_plan(nin, lr_inputs=lrin), recin)
 
     # a code block that panics (the panic is contained and reported): the parses that FOLLOW in the same process must not
     # see anything of it (stacks, pooled parser parts)
@@ -534,6 +573,8 @@ def check_C11(tier, seed, replay=None):
                 ois.append(len(options) - 1)
         plans[g.gi] = [(ii, oi) for ii in (lrin if "lr" in g.tags else range(nin)) for oi in ois]
     div, tot = run.execute(groups, inputs, options, lambda g: plans[g.gi], [[], ["-optimize-parser"]])
+    import optproto
+    optproto.report(run, tier, seed, with_design=False)     # the option protocol (Options.tla) stepped on real parser objects
     return std_finish(run, div, tot, "random grammars with 1..k code blocks (actions, predicates, state blocks; display names on a third of the rules) x all inputs over {a,b,\\n} x EVERY subset of blocks returning an error x every single block panicking under Recover(true) and Recover(false) x file names; errors compared as (position, rule, message) lists with de-duplication; typing (errList of *parserError, Inner identity, prefix shape) asserted inside the generated package",
                       level="fault_enumeration", extra=dict(fault_sets=len(options)))
 
@@ -567,7 +608,8 @@ def check_C12(tier, seed, replay=None):
     first = len(inputs)
     inputs += F.all_inputs([F.NN, F.PLUS, F.STAR_, F.LP], 4) + [[F.NN, F.PLUS, F.NN, F.PLUS], [F.NN, F.PLUS, F.NN, F.STAR_, F.NN, F.PLUS], [F.NN, F.PLUS, F.NL], [F.NN, F.NN, F.PLUS, F.NN, F.PLUS]]
     lrin = list(range(first, len(inputs)))
-    div, tot = run.execute(groups, inputs, options, budget_plan(nin12, lr_inputs=lrin), FLAGSETS_2 + [["-optimize-basic-latin"]], lower=[[201, 233]])
+    recin = add_rec(groups, inputs, nrand // 5, seed, alphabet=(R["a"], R["b"], R["nl"], R["eacute"]), leaves=F.LEAVES_FULL + F.LEAVES_UTF8, safe_rep=False)
+    div, tot = run.execute(groups, inputs, options, with_rec(budget_plan(nin12, lr_inputs=lrin), recin), FLAGSETS_2 + [["-optimize-basic-latin"]], lower=[[201, 233]])
     nm = 0
     from rt import load_obs
     for p in run.obs:
@@ -742,6 +784,8 @@ def check_C16(tier, seed, replay=None):
     run.cov["design_model_as_built_F3"]["lasso_found"] = r_asbuilt.get("violated") == "Termination"
     design_level(run, groups, inputs, options, lambda g: [i for i in range(nopt) if options[i]["maxexpr"] in (3, 9, 3000) and not options[i]["memo"] and options[i]["recover"]],
                  150 if tier == "quick" else 2000, inputs_idx=range(nin))
+    import optproto
+    optproto.report(run, tier, seed, with_design=True)     # the option protocol (Options.tla) stepped on real parser objects
     return std_finish(run, div, tot, "grammars whose repetitions iterate without consuming ((e?)*, (&e)+, (''/e)*, (e*)*, nested, under rules, with recovery) + random grammars x all inputs x budgets n = 1..N and 3000 x Memoize on/off (+ Recover(false)); verdicts: returned in time, budget error iff the meaning needs more than n evaluations (PegRef's count; 'diverges' = always), ExprCnt <= n+1, otherwise result identical to the unbounded meaning",
                       classify=classify_F3, extra=dict(budgets=maxb + 2, diverging_groups=sum(1 for g in groups if g.maydiverge)))
 
@@ -2358,6 +2402,8 @@ def check_C18(tier, seed, replay=None):
                 fld = [k for k in a2 if a2[k] != b2.get(k)][0]
                 div.append(dict(k=a["k"], vi=v.vi, gi=a["gi"], ii=a["ii"], oi=a["oi"], df="order-" + fld, at=0, haz=[]))
     mstates = r.get("distinct", 0)
+    import optproto
+    optproto.report(run, tier, seed, with_design=False)     # the option protocol (Options.tla) stepped on real parser objects
     return std_finish(run, div, tot, "design: Pool.tla, %d parsers sharing the state pool, every interleaving of Get / per-key copy / per-key clear / Put / adopt / write (exhaustive, %d distinct states), invariants ExclusiveOwnership, GetIsEmpty, Isolation (+ the deviation switches DoublePut and NoClear each produce a counterexample); real code: stateful (Cloner), throw/recover and left-recursive packs built with -race, %d goroutines x %d rounds calling Parse concurrently with mixed inputs and options (Memoize, MaxExpressions, AllowInvalidUTF8); every concurrent call must return exactly its solo observation (which is validated against PegRef) and the race detector must stay silent" % (np_, mstates, G, rounds),
                       extra=dict(pool_model_states=mstates, pool_model_transitions=r.get("generated", 0), concurrent_calls_compared=ncmp, goroutines=G, rounds=rounds, race_reports=races))
 
